@@ -13,8 +13,8 @@ UNKNOWN = 99
 
 # ----------------------------------------------------------------- inputs in versions
 def gene_versions(r, case, n=3):
-    """version 0 = the case; later versions move one gene per chromosome (names unchanged); the last
-    one also adds a gene per chromosome"""
+    """version 0 = the case; later versions move one gene per chromosome (names unchanged; version 1 also leaves their order unchanged);
+    the last one also adds a gene per chromosome and lists the rows in the opposite order"""
     out = [copy.deepcopy(case["genes"])]
     chroms = sorted(set(g["chrom"] for g in case["genes"]))
     for v in range(1, n):
@@ -22,12 +22,16 @@ def gene_versions(r, case, n=3):
         for ch in chroms:
             mine = [g for g in gs if g["chrom"] == ch]
             g = mine[(v - 1) % len(mine)]
+            if v == 1:
+                # version 1 keeps names AND order of the genes of every chromosome (the right-most gene moves further right): nothing but
+                # the modification times tells a stale overlap file from a current one
+                g = max(mine, key=lambda x: (x["start"], x["stop"]))
             d = 7 * v + r.randint(1, 5)
             g["start"] += d; g["stop"] += d + v
             if v == n - 1:
                 gs.append({"name": "%s_new%d" % (ch, v), "chrom": ch, "start": g["stop"] + 40, "stop": g["stop"] + 90, "strand": "+"})
-        if v == 1:
-            gs.reverse()        # the same genes listed in the opposite order (matters only to code that trusts row order)
+        if v == 2:
+            gs.reverse()        # the genes listed in the opposite order (matters only to code that trusts row order)
         out.append(gs)
     return out
 
@@ -308,7 +312,11 @@ class World:
         if revise:
             cmd.append("--revise_anno")
         cmd += list(getattr(self, "extra_flags", []))
-        rc, out, err = common.run_child(cmd, timeout=timeout, cwd=self.root, env=common.child_env())
+        # every run of a history in another interpreter state: the string-hash salt differs from run to run, as it does between
+        # two invocations by a user (nothing kept on disk may depend on the iteration order of a set or dict of strings)
+        self._nruns = getattr(self, "_nruns", 0) + 1
+        env = common.child_env({"PYTHONHASHSEED": str((17 * self._nruns + len(self.root)) % 1000)})
+        rc, out, err = common.run_child(cmd, timeout=timeout, cwd=self.root, env=env)
         ops = []
         if os.path.exists(logp):
             for line in open(logp):
